@@ -21,20 +21,40 @@
 #include "base/RefCount.h"
 #include "base/TextException.h"
 #include "base/AsyncCall.h"
-#include "base/AsyncJob.h"
-#include "base/AsyncJobCalls.h"
 #include "base/CbcPointer.h"
 #include "cbdata.h"
 #include "MemBuf.h"
 #define private public
 #define protected public
+#include "base/AsyncJob.h"
+#include "base/AsyncJobCalls.h"
 #include "BodyPipe.h"
+#include "clients/Client.h"
+#include "http.h"
+#include "FwdState.h"
+#include "HttpRequest.h"
+#include "Store.h"
+#include "MemObject.h"
+#include "errorpage.h"
 #undef private
 #undef protected
 #include "base/AsyncCallQueue.h"
+#include "comm.h"
+#include "comm/Connection.h"
+#include "comm/Write.h"
+#include "CommCalls.h"
+#include "fd.h"
+#include "fde.h"
+#include "HierarchyLogEntry.h"
+#include "MasterXaction.h"
+#include "PingData.h"
+#include "StatHist.h"
+#include "http/one/TeChunkedParser.h"
 #include "mem/Allocator.h"
 #include "mem/Pool.h"
-#include "common.h"
+#include "SquidConfig.h"
+#include "StatCounters.h"
+#include "http1.h"
 
 // ---------------------------------------------------------------- environment stubs
 void fatal(const char *) { vf_assert(0, "fatal() reached"); }
@@ -87,12 +107,11 @@ public:
 CBDATA_CLASS_INIT(Cons);
 
 #ifdef VF_THOROUGH
-#define MAXCAP 3
-#define NFREE 3
-#else
-#define MAXCAP 3
 #define NFREE 2
+#else
+#define NFREE 1
 #endif
+#define MAXCAP 3
 #define NBODY (MAXCAP + 2)
 
 // ---------------------------------------------------------------- group A: the pipe under producer/consumer operations
@@ -179,8 +198,8 @@ struct PipeWorld {
         enum { PUT, CHECKOUT, GET, CONSUME, STOP_EOF, STOP_EARLY };
         unsigned ops[6], nops = 0;
         if (producing()) {
-            ops[nops++] = PUT;
-            if (!sizeKnown) { ops[nops++] = CHECKOUT; ops[nops++] = STOP_EOF; }
+            if (sizeKnown) ops[nops++] = PUT;
+            else { ops[nops++] = CHECKOUT; ops[nops++] = STOP_EOF; }
             if (!complete()) ops[nops++] = STOP_EARLY; // client went away / malformed chunk
         }
         if (withConsumer) {
@@ -225,7 +244,7 @@ struct PipeWorld {
     }
 };
 
-// canonical prefix (put a bytes, take g of them: reaches every fill level with shifted content) + NFREE free operations
+// Operation sequences: put a, take g, put b (every fill level, shifted content, refills) + NFREE free operations
 static void pipeOps(const bool sizeKnown)
 {
     vf_quiet();
@@ -238,14 +257,16 @@ static void pipeOps(const bool sizeKnown)
 #endif
     w.setup(sizeKnown, n, cap);
     w.invariants();
-    if (n) {
-        w.opPut((unsigned)vf_concretize(vf_range(0, n, "offer")));
+    for (unsigned round = 0; round < 2 && n; ++round) {
+        if (sizeKnown) w.opPut((unsigned)vf_concretize(vf_range(0, n + 1 - w.put, "offer")));
+        else w.opCheckout((unsigned)vf_concretize(vf_range(0, n - w.put, "decoded")));
         w.invariants();
-        if (w.withConsumer && w.put) {
+        if (round == 0 && w.withConsumer && w.put) {
             const unsigned g = (unsigned)vf_concretize(vf_range(0, w.put, "take"));
-            if (g) { if (vf_choose(2, "how")) w.opGet(g); else w.opConsume(g); }
+            if (g) w.opGet(g);
             w.invariants();
         }
+        if (!w.producing()) break;
     }
     for (unsigned i = 0; i < NFREE; ++i) {
         w.freeOp();
@@ -256,3 +277,356 @@ static void pipeOps(const bool sizeKnown)
 }
 extern "C" void c02_pipe_cl(void) { pipeOps(true); }
 extern "C" void c02_pipe_chunked(void) { pipeOps(false); }
+
+// ================================================================ group B: client intake -> pipe -> HttpStateData -> wire
+// The real HttpStateData (real constructor; the request-body half of sendRequest() is performed by the harness) consumes
+// from the real pipe through the real Client::noteMoreBodyDataAvailable / sendMoreRequestBody / getMoreRequestBody /
+// sentRequestBody / handleRequestBodyProductionEnded / doneSendingRequestBody / finishingChunkedRequest / wroteLast /
+// handleRequestBodyProducerAborted / swanSong / closeServer, all delivered as real AsyncCalls by the real AsyncCallQueue.
+// Comm::Write() is a recorder (the bytes handed to comm for the server connection = what the origin receives).
+#define WIREMAX 96
+#define HDR "H\n" // stands for the request header block written by sendRequest() before any body byte
+#define HDRLEN 2
+static uint8_t wire[WIREMAX];
+static unsigned wireLen, serverCloses, fwdFails, timeoutsSet;
+static AsyncCall::Pointer *pendingWrite;
+static Comm::ConnectionPointer *serverConn;
+static bool replyStarted;
+
+void Comm::Write(const Comm::ConnectionPointer &conn, const char *buf, int size, AsyncCall::Pointer &callback, FREE *free_func)
+{
+    vf_assert(conn != nullptr && conn->isOpen(), "writes go to an open server connection only");
+    vf_assert(*pendingWrite == nullptr, "one write at a time per connection (comm asserts this)");
+    vf_assert(size >= 0 && wireLen + size <= WIREMAX, "harness: wire array large enough");
+    for (int i = 0; i < size; ++i) wire[wireLen++] = (uint8_t)buf[i];
+    *pendingWrite = callback;
+    if (free_func) free_func(const_cast<char *>(buf));
+}
+void Comm::Write(const Comm::ConnectionPointer &conn, MemBuf *mb, AsyncCall::Pointer &callback) { Comm::Write(conn, mb->buf, mb->size, callback, mb->freeFunc()); }
+// what Comm::IoCallback::finish() does when a write has ended
+static void finishWrite(const Comm::Flag flag)
+{
+    AsyncCall::Pointer cb = *pendingWrite;
+    *pendingWrite = nullptr;
+    CommIoCbParams &params = GetCommParams<CommIoCbParams>(cb);
+    params.fd = (*serverConn)->fd;
+    params.conn = *serverConn;
+    params.size = 1;
+    params.flag = flag;
+    ScheduleCallHere(cb);
+}
+void comm_add_close_handler(int, AsyncCall::Pointer &) {}
+void comm_remove_close_handler(int, AsyncCall::Pointer &) {}
+void commSetConnTimeout(const Comm::ConnectionPointer &, time_t, AsyncCall::Pointer &) { ++timeoutsSet; }
+void _comm_close(int, char const *, int) { ++serverCloses; }
+void fd_bytes(int, int, IoDirection) {}
+// peer_select.cc is not linked: HierarchyLogEntry (a member of every HttpRequest) embeds a ping_data, whose constructor lives there
+ping_data::ping_data(): n_sent(0), n_recv(0), n_replies_expected(0), timeout(0), timedout(0), w_rtt(0), p_rtt(0)
+{
+    start.tv_sec = 0; start.tv_usec = 0; stop.tv_sec = 0; stop.tv_usec = 0;
+}
+void StatHist::enumInit(unsigned int) {}
+void StatHist::count(double) {}
+StatCounters statCounter;
+void StoreEntry::lock(const char *) {}
+int StoreEntry::unlock(const char *) { return 1; }
+int64_t MemObject::endOffset() const { return replyStarted ? 1 : 0; }
+// FwdState.cc is not linked (its globals need the connection pools): constructor/destructor are defined here (members only),
+// fail()/unregister()/handleUnregisteredServerEnd() are recorders
+cbdata_type FwdState::CBDATA_FwdState = CBDATA_UNKNOWN;
+PeeringActivityTimer::PeeringActivityTimer(const HttpRequestPointer &r): request(r) {}
+PeeringActivityTimer::~PeeringActivityTimer() {}
+FwdState::FwdState(const Comm::ConnectionPointer &client, StoreEntry *e, HttpRequest *r, const AccessLogEntryPointer &alp):
+    entry(e), request(r), al(alp), err(nullptr), clientConn(client), start_t(0), n_tries(0), waitingForDispatched(false),
+    pconnRace(raceImpossible), storedWholeReply_(nullptr), peeringTimer(r)
+{
+    flags.connected_okay = flags.dont_retry = flags.forward_completed = flags.destinationsFound = false;
+}
+FwdState::~FwdState() {}
+void FwdState::fail(ErrorState *) { ++fwdFails; }
+void FwdState::unregister(Comm::ConnectionPointer &) {}
+void FwdState::handleUnregisteredServerEnd() {}
+cbdata_type ErrorState::CBDATA_ErrorState = CBDATA_UNKNOWN;
+ErrorState::ErrorState(err_type t, Http::StatusCode s, HttpRequest *, const AccessLogEntryPointer &): type(t), httpStatus(s) {}
+ErrorDetail::Pointer MakeNamedErrorDetail(const char *) { return nullptr; }
+
+template <class T> static inline T *rawObject() { return static_cast<T *>(xcalloc(1, sizeof(T))); }
+
+// ---- the client side of the pipe: the body-related steps of ConnStateData (expectRequestBody, handleRequestBodyData,
+// handleChunkedRequestBody, finishDechunkingRequest, abortChunkedRequestBody, Http1::Server::noteMoreBodySpaceAvailable,
+// noteBodyConsumerAborted), with the real TeChunkedParser for chunked client bodies
+class ClientSide: public BodyProducer
+{
+    CBDATA_CHILD(ClientSide);
+public:
+    ClientSide(): AsyncJob("ClientSide") {}
+    bool doneAll() const override { return false; }
+    BodyPipe::Pointer expectRequestBody(const int64_t size, const unsigned cap)
+    {
+        bodyPipe = new BodyPipe(this);
+        bodyPipe->lock(); // never destroyed
+        bodyPipe->theBuf.clean();
+        bodyPipe->theBuf.init(cap + 1, cap + 1); // small capacity instead of 64 KB
+        if (size >= 0) bodyPipe->setBodySize(size);
+        else bodyParser = new Http1::TeChunkedParser;
+        return bodyPipe;
+    }
+    void received(const uint8_t *p, const unsigned len) { inBuf.append(reinterpret_cast<const char *>(p), len); if (bodyPipe != nullptr) handleRequestBodyData(); }
+    void handleRequestBodyData()
+    {
+        if (bodyParser) {
+            if (inBuf.isEmpty()) return;
+            bool failed = false;
+            try {
+                BodyPipeCheckout bpc(*bodyPipe);
+                bodyParser->setPayloadBuffer(&bpc.buf);
+                const bool parsed = bodyParser->parse(inBuf);
+                inBuf = bodyParser->remaining();
+                bpc.checkIn();
+                if (parsed) { finishDechunkingRequest(true); return; }
+                Must(!bodyParser->needsMoreData() || bodyPipe->mayNeedMoreData());
+                Must(!bodyParser->needsMoreSpace() || bodyPipe->buf().hasContent());
+            } catch (...) {
+                failed = true;
+            }
+            if (failed) { malformed = true; finishDechunkingRequest(false); }
+        } else {
+            const auto putSize = bodyPipe->putMoreData(inBuf.rawContent(), inBuf.length());
+            if (putSize > 0) inBuf.consume(putSize);
+            if (!bodyPipe->mayNeedMoreData()) bodyPipe = nullptr;
+        }
+    }
+    void finishDechunkingRequest(const bool withSuccess)
+    {
+        if (bodyPipe != nullptr) stopProducingFor(bodyPipe, withSuccess);
+        delete bodyParser;
+        bodyParser = nullptr;
+    }
+    void clientGone() { if (bodyPipe != nullptr) stopProducingFor(bodyPipe, false); } // ConnStateData::swanSong
+    void noteMoreBodySpaceAvailable(BodyPipe::Pointer) override { if (bodyPipe != nullptr) handleRequestBodyData(); }
+    void noteBodyConsumerAborted(BodyPipe::Pointer) override { consumerAborted = true; if (bodyPipe != nullptr) bodyPipe->enableAutoConsumption(); }
+    BodyPipe::Pointer bodyPipe;
+    Http1::TeChunkedParser *bodyParser = nullptr;
+    SBuf inBuf;
+    bool malformed = false, consumerAborted = false;
+};
+CBDATA_CLASS_INIT(ClientSide);
+
+// ---- reference decoder for what the origin receives after the header block: strict RFC 9112 7.1 without extensions and
+// trailers (Squid generates none): *( 1*HEXDIG-without-leading-zero CRLF data CRLF ) "0" CRLF CRLF
+enum { DONE = 0, MORE = 1, BAD = 2 };
+struct Decoded { int st; unsigned consumed, len; uint8_t out[NBODY + 32]; };
+static Decoded refDecode(const uint8_t *x, const unsigned n)
+{
+    Decoded r; r.st = MORE; r.consumed = 0; r.len = 0;
+    unsigned p = 0;
+    for (;;) {
+        if (p == n) return r;
+        unsigned size = 0, nd = 0;
+        for (; p < n && nd < 4; ++p, ++nd) {
+            const uint8_t c = x[p];
+            unsigned d;
+            if (c >= '0' && c <= '9') d = c - '0'; else if (c >= 'a' && c <= 'f') d = c - 'a' + 10; else if (c >= 'A' && c <= 'F') d = c - 'A' + 10; else break;
+            if (nd == 1 && size == 0) { r.st = BAD; return r; } // leading zero / 0x
+            size = size * 16 + d;
+        }
+        if (p == n) return r;
+        if (!nd || x[p] != '\r') { r.st = BAD; return r; }
+        if (++p == n) return r;
+        if (x[p] != '\n') { r.st = BAD; return r; }
+        ++p;
+        if (size == 0) break;
+        for (unsigned i = 0; i < size; ++i) {
+            if (p == n) return r;
+            if (r.len >= sizeof(r.out)) { r.st = BAD; return r; }
+            r.out[r.len++] = x[p++];
+        }
+        if (p == n) return r;
+        if (x[p] != '\r') { r.st = BAD; return r; }
+        if (++p == n) return r;
+        if (x[p] != '\n') { r.st = BAD; return r; }
+        ++p;
+    }
+    if (p == n) return r;
+    if (x[p] != '\r') { r.st = BAD; return r; }
+    if (++p == n) return r;
+    if (x[p] != '\n') { r.st = BAD; return r; }
+    r.st = DONE; r.consumed = p + 1;
+    return r;
+}
+
+struct Relay {
+    bool chunkedOut;      // HttpStateData re-chunks (no Content-Length known to it when the header was built)
+    bool chunkedIn;       // client sends chunked
+    unsigned n, cap;      // body size, pipe capacity
+    uint8_t body[NBODY + 32];
+    uint8_t in[WIREMAX];  // what the client sends after its header: the body, identity or chunked, + 1 byte of the next request
+    unsigned inLen, bodyEnd, delivered;
+    ClientSide *client;
+    BodyPipe::Pointer pipe;
+    HttpStateData *hs;
+    CbcPointer<HttpStateData> hsAlive;
+    HttpRequest *request;
+    FwdState *fwd;
+    bool started, clientGone, writeFailed;
+
+    void setup(const bool cIn, const bool cOut, const unsigned bodyLen, const unsigned capacity, const unsigned cut)
+    {
+        http1Config(1, 65536, 65536);
+        chunkedIn = cIn; chunkedOut = cOut; n = bodyLen; cap = capacity;
+        started = clientGone = writeFailed = false; delivered = 0;
+        wireLen = serverCloses = fwdFails = timeoutsSet = 0;
+        pendingWrite = new AsyncCall::Pointer;
+        for (unsigned i = 0; i < n; ++i) body[i] = vf_nondet_u8("body");
+        // the client's bytes
+        inLen = 0;
+        if (chunkedIn) { // chunks [0,cut) [cut,n), last-chunk; concrete framing, symbolic data
+            const unsigned ends[2] = {cut, n};
+            unsigned from = 0;
+            for (unsigned k = 0; k < 2; ++k) {
+                if (ends[k] == from) continue;
+                const unsigned sz = ends[k] - from;
+                if (sz >= 16) in[inLen++] = "0123456789abcdef"[sz >> 4];
+                in[inLen++] = "0123456789ABCDEF"[sz & 15];
+                in[inLen++] = '\r'; in[inLen++] = '\n';
+                for (; from < ends[k]; ++from) in[inLen++] = body[from];
+                in[inLen++] = '\r'; in[inLen++] = '\n';
+            }
+            in[inLen++] = '0'; in[inLen++] = '\r'; in[inLen++] = '\n'; in[inLen++] = '\r'; in[inLen++] = '\n';
+        } else
+            for (unsigned i = 0; i < n; ++i) in[inLen++] = body[i];
+        bodyEnd = inLen;
+        in[inLen++] = vf_nondet_u8("next"); // first byte of the next pipelined request: must never reach this origin message
+        client = new ClientSide;
+        pipe = client->expectRequestBody(chunkedIn ? -1 : (int64_t)n, cap);
+        request = new HttpRequest(MasterXaction::MakePortful(nullptr));
+        request->lock(); // never destroyed
+        request->body_pipe = pipe;
+        fd_table = static_cast<fde *>(xcalloc(8, sizeof(fde)));
+        serverConn = new Comm::ConnectionPointer(new Comm::Connection);
+        (*serverConn)->fd = 5;
+        StoreEntry *entry = rawObject<StoreEntry>();
+        entry->mem_obj = rawObject<MemObject>();
+        fwd = new FwdState(nullptr, entry, request, nullptr);
+        fwd->lock(); // never destroyed
+        fwd->serverConn = *serverConn;
+        hs = nullptr;
+    }
+    // FwdState::dispatch() -> httpStart(): the server-side job is created and sendRequest() runs: it joins the pipe, decides
+    // about re-chunking, and writes the header block with sentRequestBody() as the completion callback
+    void start()
+    {
+        hs = new HttpStateData(fwd);
+        hsAlive = hs;
+        hs->started_ = true;
+        const bool joined = hs->startRequestBodyFlow();
+        vf_assert(joined, "the server side joins a pipe nobody has consumed from");
+        typedef CommCbMemFunT<HttpStateData, CommIoCbParams> Dialer;
+        hs->requestSender = JobCallback(11, 5, Dialer, hs, HttpStateData::sentRequestBody);
+        hs->flags.chunked_request = chunkedOut;
+        Comm::Write(*serverConn, HDR, HDRLEN, hs->requestSender, nullptr);
+        started = true;
+    }
+    void drain() { AsyncCallQueue::Instance().fire(); }
+    bool bodyComplete() const { return pipe->productionEnded() && pipe->bodySizeKnown() && pipe->bodySize() == pipe->producedSize(); }
+
+    // one external event followed by the delivery of all resulting AsyncCalls (one main-loop iteration)
+    void step()
+    {
+        enum { ARRIVE, WRITTEN, GONE, START, WRITE_ERROR };
+        unsigned ev[5], nev = 0;
+        if (delivered < inLen && !clientGone && !client->malformed) ev[nev++] = ARRIVE;
+        if (*pendingWrite != nullptr) { ev[nev++] = WRITTEN; if (!writeFailed) ev[nev++] = WRITE_ERROR; }
+        if (!clientGone && client->bodyPipe != nullptr) ev[nev++] = GONE;
+        if (!started) ev[nev++] = START;
+        if (!nev) return;
+        switch (ev[vf_choose(nev, "event")]) {
+        case ARRIVE: {
+            const unsigned k = (unsigned)vf_concretize(vf_range(1, inLen - delivered, "segment"));
+            client->received(in + delivered, k);
+            delivered += k;
+            break; }
+        case WRITTEN: finishWrite(Comm::OK); break;
+        case WRITE_ERROR: writeFailed = true; finishWrite(Comm::COMM_ERROR); break;
+        case GONE: clientGone = true; client->clientGone(); break;
+        case START: start(); break;
+        }
+        drain();
+        check(false);
+    }
+    // everything that has been set in motion completes: all pending writes succeed
+    void quiesce()
+    {
+        for (unsigned i = 0; i < 2 * NBODY + 8 && *pendingWrite != nullptr; ++i) { finishWrite(Comm::OK); drain(); }
+        vf_assert(*pendingWrite == nullptr, "the relay comes to rest");
+        check(true);
+    }
+    void check(const bool quiet)
+    {
+        vf_assert(wireLen == 0 || started, "nothing is written before the server side starts");
+        if (!started) return;
+        const unsigned put = (unsigned)pipe->producedSize();
+        vf_assert(wireLen >= HDRLEN, "header block written first");
+        const uint8_t *w = wire + HDRLEN;
+        const unsigned wl = wireLen - HDRLEN;
+        const bool alive = hsAlive.valid();
+        unsigned sent; // body bytes the origin has got
+        bool framedComplete;
+        if (chunkedOut) {
+            const Decoded d = refDecode(w, wl);
+            vf_assert(d.st != BAD, "what the origin receives is validly chunked (so far)");
+            vf_assert(d.len <= n, "origin never receives more than the body");
+            for (unsigned i = 0; i < d.len && i < n; ++i) vf_assert(d.out[i] == body[i], "origin receives the client's body bytes, in order");
+            if (d.st == DONE) vf_assert(d.consumed == wl, "nothing follows the last-chunk");
+            sent = d.len; framedComplete = d.st == DONE;
+        } else {
+            vf_assert(wl <= n, "origin never receives more than the declared length");
+            for (unsigned i = 0; i < wl && i < n; ++i) vf_assert(w[i] == body[i], "origin receives the client's body bytes, in order");
+            sent = wl; framedComplete = wl == n;
+        }
+        vf_assert(sent <= put, "origin receives only bytes the pipe has accepted");
+        if (framedComplete) {
+            vf_assert(bodyComplete() && sent == n, "the upstream message is complete only if the whole client body was received");
+        }
+        if (quiet) {
+            if (writeFailed || (pipe->productionEnded() && !bodyComplete())) {
+                // Squid stopped relaying early: visibly incomplete upstream message, connection closed
+                vf_assert(!framedComplete || writeFailed, "an aborted body is never completed upstream");
+                vf_assert(serverCloses == 1 && !(*serverConn)->isOpen(), "the server connection is closed when the body relay is aborted");
+                vf_assert(!alive, "the server-side job ends");
+                vf_reach(writeFailed ? "write-error" : "aborted");
+            } else if (bodyComplete()) {
+                vf_assert(framedComplete && sent == n, "a completely received body is completely relayed, in one validly framed message");
+                vf_assert(alive && serverCloses == 0 && hs->flags.request_sent && timeoutsSet == 1, "request sent: the server side now waits for the reply");
+                vf_reach("relayed");
+            } else {
+                // the client is still sending: everything the pipe accepted has been forwarded, the message is open
+                vf_assert(sent == put && !framedComplete && alive && serverCloses == 0, "all accepted bytes are forwarded while the body is in progress");
+                vf_reach("in-progress");
+            }
+        }
+    }
+};
+
+#ifdef VF_THOROUGH
+#define NEVENTS 5
+#define RBODY 4
+#else
+#define NEVENTS 4
+#define RBODY 3
+#endif
+static void relay(const bool chunkedIn)
+{
+    vf_quiet();
+    Relay r;
+    const unsigned n = (unsigned)vf_concretize(vf_range(chunkedIn ? 0 : 1, RBODY, "bodyLen"));
+    const unsigned cap = (unsigned)vf_concretize(vf_range(1, 2, "cap"));
+    const unsigned cut = chunkedIn && n > 1 ? (unsigned)vf_concretize(vf_range(1, n, "chunkCut")) : n;
+    r.setup(chunkedIn, chunkedIn, n, cap, cut);
+    for (unsigned i = 0; i < NEVENTS; ++i) r.step();
+    r.quiesce();
+    vf_observe("wireLen", wireLen); vf_observe("closes", serverCloses); vf_observe("put", r.pipe->producedSize());
+    WITNESS_POINT();
+}
+extern "C" void c02_relay_cl(void) { relay(false); }
+extern "C" void c02_relay_chunked(void) { relay(true); }
